@@ -33,13 +33,12 @@ class Semaphore {
 
     //! 请求资源，注意：只能是协程调用
     bool acquire () {
-        if (count_ == 0) {      //! 如果没有资源，则等待
+        //! 如果没有资源，则等待。被唤醒后若资源已被别的协程取走，要重新排队
+        while (count_ == 0) {
             token_.push(sch_.getToken());
-            do {
-                sch_.wait();
-                if (sch_.isCanceled())
-                    return false;
-            } while (count_ == 0);
+            sch_.wait();
+            if (sch_.isCanceled())
+                return false;
         }
 
         --count_;
@@ -48,12 +47,14 @@ class Semaphore {
 
     //! 释放资源
     void release() {
-        if (count_ == 0 && !token_.empty()) {
+        ++count_;
+        //! every release wakes one waiter (skipping waiters that are gone or already woken)
+        while (!token_.empty()) {
             auto t = token_.front();
             token_.pop();
-            sch_.resume(t);
+            if (sch_.resume(t))
+                break;
         }
-        ++count_;
     }
 
     inline bool count() const { return count_; }
